@@ -48,6 +48,24 @@ CLAIMED = {
             "or a call exceeding the time budget.",
             "Trusted: as C06; non-termination is detected as 'no return within 5 s'. Zero-width element types are outside the domain.",
             "TLA+ reference classification + trace validation of recorded failing codec calls", "5/C08"),
+    "C09": ("path",
+            "EPath.tla states the padded-EPATH format as a canonical encoder and a STRICT parser (reserved format bits, "
+            "non-zero pads, odd lengths, wrong word counts rejected); PathModel.tla shows by exhaustive TLC search that the parser "
+            "inverts the encoder on every list of <= 2 segments over boundary values and rejects the malformations (R1).  Every "
+            "path emitted by LogicalSegment / PortSegment / DataSegment / PADDED_EPATH.encode / request_path / tag_request_path "
+            "for boundary-crossed inputs is parsed by that parser inside TLC and compared with the intended segment list (R3).",
+            "Trusted: TLC, the transcription of CIP Vol 1 C-1 into EPath.tla, the intent construction in vf/props/c09.py "
+            "(built from the generated structure, never by parsing the tag string with library code).",
+            "TLA+ strict EPATH parser model-checked against the canonical encoder + trace validation of emitted paths", "5/C09"),
+    "C15": ("path",
+            "ConnPath.tla is an interpreter of the documented path grammar over code points (separator normalisation, host:port, "
+            "port aliases, slot / IPv4 links, driver shortcuts, the stated rejection set, and an explicit 'unspecified' class); "
+            "ConnPathModel.tla checks with TLC that all spellings of a 0-2 hop route have one meaning and that the rejection "
+            "classes are rejected (R1).  parse_connection_path + PADDED_EPATH.encode are run on grammar enumerations and single-"
+            "edit corruptions; TLC interprets each string, strictly parses the route bytes and compares (R3).",
+            "Trusted: TLC, ConnPath.tla as the reading of the documentation; upper-case names, numeric ports 0/>=15, IPv6, empty "
+            "tokens, white space are 'unspec'.  The route as seen by a target in Forward Open is covered by C10/C14 sessions.",
+            "TLA+ grammar interpreter model-checked with TLC + trace validation of recorded parses", "5/C15"),
 }
 
 PENDING_REASON = "check not built yet in this round (construction order in DESIGN.md section 9); no claim is made"
@@ -86,6 +104,9 @@ def build():
             {"name": "codec", "path": "spec/Bytes.tla spec/Ieee754.tla spec/Unicode.tla spec/CipTypes.tla spec/CodecModel.tla "
              "spec/TraceCodec.tla vf/codecgen.py vf/codec_engine.py vf/codec_families.py vf/props/c06.py c07.py c08.py",
              "serves_properties": ["C06", "C07", "C08"], "kind_free_text": "TLA+ reference codec; sharded TLC trace validation"},
+            {"name": "path", "path": "spec/EPath.tla spec/ConnPath.tla spec/PathModel.tla spec/ConnPathModel.tla spec/TracePath.tla "
+             "vf/props/c09.py vf/props/c15.py", "serves_properties": ["C09", "C15"],
+             "kind_free_text": "TLA+ strict EPATH parser and path-grammar interpreter; TLC trace validation"},
             {"name": "socket", "path": "spec/SocketIO.tla spec/TraceSocket.tla vf/props/c12.py vf/fakesock.py",
              "serves_properties": ["C12"], "kind_free_text": "TLA+ model of the byte-stream loops; schedules from TLC replayed into Socket; trace validation"},
         ],
